@@ -73,14 +73,24 @@ def main(pid, tier, seed, replay):
     #    `secondary`: ADDITIONAL ties (regenerated model by translation, source constant tables). The property is already shown by
     #                 the primary route (theorems about the hand model + correspondence on pi); when only a secondary tie fails and
     #                 the correspondence agrees on everything explored, that is recorded (evidence, NOTE line) but is not a violation.
-    for fn in cfg.get("static", []):
-        o, d, probs, c = fn(tier)
-        obligations += o
-        discharged += d
-        problems += probs
-        cov.update(c)
     sec_obl = sec_dis = 0
     sec_problems = []
+    for fn in cfg.get("static", []):
+        o, d, probs, c = fn(tier)
+        cov.update(c)
+        unrec = [p for p in probs if p[0] == "unrecognised"]
+        rest = [p for p in probs if p[0] != "unrecognised"]
+        if unrec and not rest:
+            # the extractor could not READ the source shape (it did not find the discipline violated). Where the property's
+            # statement is fully judged by the dynamic correspondence (C02, C03) this is recorded like a broken secondary tie.
+            obligations += d
+            discharged += d
+            sec_obl += o - d
+            sec_problems += [("tie", t, pl) for _, t, pl in unrec]
+        else:
+            obligations += o
+            discharged += d
+            problems += [("tie", t, pl) if k == "unrecognised" else (k, t, pl) for k, t, pl in probs]
     for fn in cfg.get("secondary", []):
         o, d, probs, c = fn(tier)
         sec_obl += o
